@@ -451,7 +451,8 @@ def run_scenario(scene, spec, nprng):
     from tweakwcs import align_wcs, XYXYMatch, FITSWCSCorrector
     ims, srcs = [], []
     for k, ((origin, kind, gid), err) in enumerate(zip(spec['images'], spec['errs'])):
-        c, ids = scene.make_image(k, tuple(origin), kind, real_group_label(spec, gid), err=tuple(err))
+        c, ids = scene.make_image(k, tuple(origin), kind, real_group_label(spec, gid), err=tuple(err),
+                                  name=(spec.get('names') or [None] * (k + 1))[k])
         if spec.get('common') is not None and kind == 'good':
             ids = list(spec['common'])
             ox, oy = origin
